@@ -75,7 +75,8 @@ func (c *C08Case) Run() string {
 	contiguous := c.A.L.IsContig() && !c.A.L.IsCM()
 	var res tensor.Tensor
 	var lerr error
-	var want Arr
+	var want, alt Arr
+	hasAlt := false
 	switch c.Op {
 	case "Sum", "Max", "Min":
 		axes := c.Axes
@@ -170,12 +171,51 @@ func (c *C08Case) Run() string {
 			}
 			return desc + " panicked: " + pan
 		}
-	case "Reduce":
+	case "Reduce", "ReduceSub":
 		axis := c.Axes[0]
-		want = A.arr.ReduceAxes([]int{axis}, foldFor("Sum"))
+		opName := "Add"
+		if c.Op == "ReduceSub" {
+			opName = "Sub" // a non-commutative function: the fold has to go along the axis in order
+		}
+		fold := func(acc, v interface{}) interface{} { r, _ := binop(opName, acc, v); return r }
+		want = A.arr.ReduceAxes([]int{axis}, fold)
+		if c.Op == "ReduceSub" {
+			// the library seeds some of its kernels with the default value instead of the first element:
+			// both conventions are accepted (see below), a different order of evaluation is not
+			neg := A.arr.Clone()
+			zero := zeroOf(d)
+			first := map[int]bool{}
+			for k, cc := range coordsOf(neg.Shape) {
+				if cc[axis] == 0 {
+					first[k] = true
+				}
+			}
+			alt = A.arr.ReduceAxes([]int{axis}, fold)
+			// fold(0, v0, v1, ...) = fold(v0, v1, ...) - 2*v0 ... computed directly instead:
+			alt = Arr{DT: d, Shape: want.Shape, E: make([]interface{}, len(want.E))}
+			var outShape []int
+			for i, dd := range neg.Shape {
+				if i != axis {
+					outShape = append(outShape, dd)
+				}
+			}
+			coord := make([]int, len(neg.Shape))
+			for k, oc := range coordsOf(want.Shape) {
+				copy(coord[:axis], oc[:axis])
+				copy(coord[axis+1:], oc[axis:])
+				acc := zero
+				for j := 0; j < neg.Shape[axis]; j++ {
+					coord[axis] = j
+					acc = fold(acc, neg.At(coord))
+				}
+				alt.E[k] = acc
+			}
+			_ = first
+			hasAlt = true
+		}
 		T := d.T.Type
 		fn := reflect.MakeFunc(reflect.FuncOf([]reflect.Type{T, T}, []reflect.Type{T}, false), func(args []reflect.Value) []reflect.Value {
-			r, _ := binop("Add", args[0].Interface(), args[1].Interface())
+			r, _ := binop(opName, args[0].Interface(), args[1].Interface())
 			return []reflect.Value{reflect.ValueOf(r)}
 		}).Interface()
 		pan := try(func() { res, lerr = t.Reduce(fn, axis, zeroOf(d)) })
@@ -200,7 +240,9 @@ func (c *C08Case) Run() string {
 		return desc + " returned nil without an error"
 	}
 	if m := compareAt(res, want, eqVal); m != "" {
-		return desc + ": " + m
+		if !hasAlt || compareAt(res, alt, eqVal) != "" {
+			return desc + ": " + m
+		}
 	}
 	c08Last = arrOf(res)
 	if len(want.Shape) == 0 && !res.Shape().IsScalar() && res.Shape().TotalSize() != 1 {
@@ -232,13 +274,13 @@ func genAxesSubset(rt *rapid.T, rank int) []int {
 	return axes
 }
 
-var c08Layouts = []string{"contig", "lazyT", "sliced", "stepsliced", "materialized", "clonedview", "slicedT"}
+var c08Layouts = []string{"contig", "lazyT", "sliced", "stepsliced", "materialized", "clonedview", "slicedT", "physT"}
 
 func TestC08(t *testing.T) {
 	sumDTs := append(append([]DT{}, ordNumDTs...), dtC64, dtC128)
-	for _, op := range []string{"Sum", "Max", "Min", "Argmax", "Argmin", "Reduce"} {
+	for _, op := range []string{"Sum", "Max", "Min", "Argmax", "Argmin", "Reduce", "ReduceSub"} {
 		dts := ordNumDTs
-		if op == "Sum" || op == "Reduce" {
+		if op == "Sum" || op == "Reduce" || op == "ReduceSub" {
 			dts = sumDTs
 		}
 		for _, d := range dts {
@@ -277,7 +319,7 @@ func TestC08(t *testing.T) {
 						} else {
 							c.Axes = []int{rapid.IntRange(0, len(shape)-1).Draw(rt, "axis")}
 						}
-					case "Reduce":
+					case "Reduce", "ReduceSub":
 						c.Axes = []int{rapid.IntRange(0, len(shape)-1).Draw(rt, "axis")}
 						c.Via = "method"
 					}
